@@ -508,22 +508,46 @@ func VerifC05_LinkOpsInWritingTx() {
 			list = append(list, d)
 		}
 	}
-	op := verifrt.Choose("op", 2) // 0 SetLinks(list), 1 RemoveLinks(list)
+	op := verifrt.Choose("op", 4) // 0 SetLinks(list), 1 RemoveLinks(list), 2 RemoveLink one by one, 3 AddLink again one by one
+	flagsOk := true
 	err := env.update(func(ctx MutateContext) error {
 		if err := env.emp.depts.AddLinks(ctx.Tx(), "a", depts...); err != nil {
 			return err
 		}
-		if op == 0 {
+		switch op {
+		case 0:
 			return env.emp.depts.SetLinks(ctx.Tx(), "a", list)
+		case 1:
+			return env.emp.depts.RemoveLinks(ctx.Tx(), "a", list...)
 		}
-		return env.emp.depts.RemoveLinks(ctx.Tx(), "a", list...)
+		for _, d := range list {
+			var changed bool
+			var err error
+			if op == 2 {
+				changed, err = env.emp.depts.RemoveLink(ctx.Tx(), []byte("a"), []byte(d))
+				flagsOk = flagsOk && changed // the link was there: written earlier in this transaction
+			} else {
+				changed, err = env.emp.depts.AddLink(ctx.Tx(), []byte("a"), []byte(d))
+				flagsOk = flagsOk && !changed // already linked
+			}
+			if err != nil {
+				return err
+			}
+		}
+		return nil
 	})
+	verifrt.Assert(flagsOk, "C05 AddLink / RemoveLink report the truth about links written earlier in the same transaction")
 	verifrt.Assert(err == nil, "C05 link operations in one transaction succeed")
 	env.view(func(tx *bbolt.Tx) {
 		eb := env.emp.GetEntityBucket(tx, []byte("a"))
 		n := 0
 		for i, d := range depts {
 			want := keep[i] == (op == 0)
+			if op == 2 {
+				want = !keep[i]
+			} else if op == 3 {
+				want = true
+			}
 			if want {
 				n++
 			}
